@@ -48,6 +48,8 @@ pub struct ClientDoc {
     pub ever_opened: bool,
     pub text: String,
     pub has_file: bool,
+    /// the editor names the file by an equivalent, differently percent-encoded URI (C07)
+    pub alt: bool,
 }
 
 #[derive(Clone, Debug)]
@@ -66,8 +68,8 @@ impl Client {
     pub fn new() -> Self {
         Self {
             docs: vec![
-                ClientDoc { name: "a.md", lang: "markdown", open: false, ever_opened: false, text: String::new(), has_file: true },
-                ClientDoc { name: "b.txt", lang: "plaintext", open: false, ever_opened: false, text: String::new(), has_file: false },
+                ClientDoc { name: "a.md", lang: "markdown", open: false, ever_opened: false, text: String::new(), has_file: true, alt: false },
+                ClientDoc { name: "b.txt", lang: "plaintext", open: false, ever_opened: false, text: String::new(), has_file: false, alt: false },
             ],
             user_words: BTreeSet::new(),
             file_words: vec![BTreeSet::new(), BTreeSet::new()],
@@ -182,7 +184,15 @@ impl Session {
     }
 
     pub fn uri(&self, d: usize) -> String {
-        self.world.uri(self.client.docs[d].name)
+        let doc = &self.client.docs[d];
+        if doc.alt {
+            // RFC 3986 §2.3: percent-encoding an unreserved character names the same resource
+            let mut cs = doc.name.chars();
+            let first = cs.next().unwrap();
+            let alt = format!("%{:02X}{}", first as u32, cs.as_str());
+            return self.world.uri(&alt);
+        }
+        self.world.uri(doc.name)
     }
 
     /// Server restart: a new server process on the same directories; the editor re-sends didOpen
